@@ -211,8 +211,17 @@ func run(r *core.Run) {
 	defer debug.SetMemoryLimit(debug.SetMemoryLimit(3 << 30))
 	cpu := map[string]float64{}
 	only := os.Getenv("C07_PARTS") // development aid: run a subset of the parts (the run is then not exhaustive)
+	if raceOnly() {
+		only = "gensym-concurrent" // C07_ONLY=race: only the free-running part, meant for a -race build
+	}
 	timed := func(name string, f func(*core.Run)) {
-		if only != "" && !strings.Contains(only, name) {
+		selected := only == ""
+		for _, tok := range strings.Split(only, ",") {
+			if tok != "" && strings.HasPrefix(name, tok) {
+				selected = true
+			}
+		}
+		if !selected {
 			r.Cap("part " + name + " skipped by C07_PARTS")
 			return
 		}
@@ -227,7 +236,8 @@ func run(r *core.Run) {
 	timed("quasi", runQuasi)
 	timed("macro", runMacro)
 	timed("reentrancy", runReentrancy)
-	timed("gensym", runGensym)
+	timed("gensym-bfs", runGensym)
+	timed("gensym-concurrent", runGensymConcurrent)
 	r.Extra("cpu_seconds_by_part", cpu)
 	if os.Getenv("C07_TIMING") != "" {
 		fmt.Fprintf(os.Stderr, "cpu seconds by part: %v\n", cpu)
@@ -259,6 +269,11 @@ func replay(v core.Violation) (bool, string) {
 		b.WriteString(rep)
 		return bad, b.String()
 	case "gensym":
+		if k.Check == "concurrent" {
+			bad, rep := replayGensymConcurrent(k)
+			b.WriteString(rep)
+			return bad, b.String()
+		}
 		bad, rep := replayGensym(k)
 		b.WriteString(rep)
 		return bad, b.String()
